@@ -73,6 +73,9 @@ def configs(tier):
     return c
 
 
+HCTTY = [None]
+
+
 class Env:
     """per-run sandbox directory with bound sockets"""
 
@@ -94,7 +97,7 @@ class Env:
         shutil.rmtree(self.w, ignore_errors=True)
 
 
-def one_run(sx, h_one, w, cfgtext, opts, uid=0, prep=None, calltimeout=2500, totaltimeout=6000, std_state=None, msglen=None, ncalls=1, stdin_pty=False, fsize=None):
+def one_run(sx, h_one, w, cfgtext, opts, uid=0, prep=None, calltimeout=2500, totaltimeout=6000, std_state=None, msglen=None, ncalls=1, stdin_pty=False, fsize=None, ctty=None):
     env = Env(w)
     try:
         if prep:
@@ -106,7 +109,7 @@ def one_run(sx, h_one, w, cfgtext, opts, uid=0, prep=None, calltimeout=2500, tot
             open(res, 'w').close()
             os.chmod(res, 0o666)
             os.chmod(w, 0o777)
-        rep = X.run(sx, w, [h_one, ini, res, str(uid), str(ncalls), os.path.join(w, 'devlog')] + ([str(msglen)] if msglen else []), env=dict(H.san_env(w), VERIF_STD_STATE=std_state or '', **({'VERIF_STDIN_PTY': '1'} if stdin_pty else {}), **({'VERIF_RLIMIT_FSIZE': str(fsize)} if fsize is not None else {})), opts=list(opts) + ['--skipalloc', '--calltimeout', str(calltimeout), '--totaltimeout', str(totaltimeout)], timeout=totaltimeout / 1000 + 30)
+        rep = X.run(sx, w, prefix=([HCTTY[0], ctty, '--'] if ctty else []), prog_argv=[h_one, ini, res, str(uid), str(ncalls), os.path.join(w, 'devlog')] + ([str(msglen)] if msglen else []), env=dict(H.san_env(w), VERIF_STD_STATE=std_state or '', **({'VERIF_STDIN_PTY': '1'} if stdin_pty else {}), **({'VERIF_RLIMIT_FSIZE': str(fsize)} if fsize is not None else {})), opts=list(opts) + ['--skipalloc', '--calltimeout', str(calltimeout), '--totaltimeout', str(totaltimeout)], timeout=totaltimeout / 1000 + 30)
         try:
             rep['result'] = json.load(open(res))
         except Exception:
@@ -129,7 +132,7 @@ def verdict(rep):
     if rep.get('runaway'):
         bad.append('runaway_more_than_20000_syscalls')
     if rep.get('signals'):
-        bad.append('signal_' + '_'.join(map(str, rep['signals'])))
+        bad.append('signal_' + '_'.join(map(str, sorted(set(rep['signals'])))))
     if rep.get('term_sig'):
         bad.append('killed_by_signal_%d' % rep['term_sig'])
     if rep.get('san'):
@@ -166,6 +169,7 @@ def _opts_for(dev, call):
 def run(ck):
     sx = X.build_sysx()
     v = X.build_h_one('c03-ts-asan')
+    HCTTY[0] = X.build_h_ctty()
     cfg = configs(ck.tier)
     evals = 0
     outcomes = set()
@@ -339,14 +343,19 @@ def run(ck):
     states.append(('file:callers_file_size_limit_is_zero', fcfg, 0, None, None, None, 0))
     for oname, fdn in (('stdout', '1'), ('stderr', '2')):
         states.append(('%s:regular_file_at_the_callers_file_size_limit' % oname, cfg[oname + '/default'], 0, None, 'file4096:' + fdn, None, 4096))
-    states = [s + (None,) * (7 - len(s)) for s in states]
-    st_res = pmap(lambda s: one_run(sx, v['h_one'], wdir(), s[1], [], uid=s[2], prep=s[3], std_state=s[4], msglen=s[5], fsize=s[6]), states)
+    # a controlling terminal: devtty output in the foreground (the success path of /dev/tty) and from a background process group of a
+    # terminal with TOSTOP (a write raises SIGTTOU, which stops the writer, unless the writer blocks or ignores it)
+    for cname in ('devtty/default', 'file/allds'):
+        states.append(('%s:controlling_tty_foreground' % cname, cfg[cname], 0, None, None, None, None, 'fg'))
+        states.append(('%s:background_process_group_of_a_tostop_tty' % cname, cfg[cname], 0, None, None, None, None, 'bg_tostop'))
+    states = [s + (None,) * (8 - len(s)) for s in states]
+    st_res = pmap(lambda s: one_run(sx, v['h_one'], wdir(), s[1], [], uid=s[2], prep=s[3], std_state=s[4], msglen=s[5], fsize=s[6], ctty=s[7]), states)
     for s, rep in zip(states, st_res):
         evals += 1
         b = verdict(rep)
         outcomes.add(('state', s[0], tuple(b)))
         if b and ('hang_or_spin' in b or any(x.startswith('blocked') for x in b)):
-            rep = one_run(sx, v['h_one'], wdir(), s[1], [], uid=s[2], prep=s[3], calltimeout=12000, totaltimeout=30000, std_state=s[4], msglen=s[5], fsize=s[6])
+            rep = one_run(sx, v['h_one'], wdir(), s[1], [], uid=s[2], prep=s[3], calltimeout=12000, totaltimeout=30000, std_state=s[4], msglen=s[5], fsize=s[6], ctty=s[7])
             b = verdict(rep)
         if b:
             ck.violation('C03:%s:sink_state=%s' % ('+'.join(b), s[0]), {'state': s[0], 'config': s[1], 'uid': s[2], 'report': {k: rep.get(k) for k in ('signals', 'exit_code', 'term_sig', 'blocked_call', 'total_timeout', 'result')},
